@@ -1274,6 +1274,196 @@ impl Exec {
                     }
                 }
             }
+            // ------------------------------------------------------------------ Solend (stand-in venue, see venue.rs)
+            "add_bank_solend" => {
+                let group = sreq(a, "group")?;
+                let bank = sreq(a, "bank")?;
+                let rname = sreq(a, "reserve")?.to_string();
+                let ri = self.env.sreserves.get(&rname).ok_or("no reserve")?.clone();
+                let mint_name = s(a, "mint").map(|x| x.to_string()).unwrap_or(ri.mint_name.clone());
+                let mint = self.env.mints.get(&mint_name).ok_or("no mint")?.clone();
+                let g = self.group(group)?;
+                let admin = self.admin_signer(a, g.admin);
+                let payer = self.env.wallet("payer");
+                signers.extend([admin, payer]);
+                let gk = self.k(group);
+                let sd = u64o(a, "seed").unwrap_or(0);
+                let bk = Pubkey::find_program_address(&[gk.as_ref(), mint.key.as_ref(), &sd.to_le_bytes()], &marginfi::ID).0;
+                self.env.names.reg(bank, bk);
+                for (nm, seed_s) in [
+                    ("liq", tc::LIQUIDITY_VAULT_SEED),
+                    ("ins", tc::INSURANCE_VAULT_SEED),
+                    ("fee", tc::FEE_VAULT_SEED),
+                    ("liq_auth", tc::LIQUIDITY_VAULT_AUTHORITY_SEED),
+                    ("ins_auth", tc::INSURANCE_VAULT_AUTHORITY_SEED),
+                    ("fee_auth", tc::FEE_VAULT_AUTHORITY_SEED),
+                ] {
+                    self.env.names.reg(&format!("{}.{}", bank, nm), pda(seed_s, &bk));
+                }
+                let lva = pda(tc::LIQUIDITY_VAULT_AUTHORITY_SEED, &bk);
+                let reserve_key = s(a, "reserve_acct").map(|n| self.k(n)).unwrap_or(ri.reserve);
+                let obligation = Pubkey::find_program_address(&[marginfi::constants::SOLEND_OBLIGATION_SEED.as_bytes(), bk.as_ref()], &marginfi::ID).0;
+                let obligation = s(a, "obligation").map(|n| self.k(n)).unwrap_or(obligation);
+                self.env.names.reg(&format!("{}.obl", bank), obligation);
+                let oracle = self.k(s(a, "oracle").unwrap_or("none"));
+                let cfg = a.get("cfg").cloned().unwrap_or(json!({}));
+                let setup = match u64o(a, "setup").unwrap_or(11) {
+                    12 => OracleSetup::SolendSwitchboardPull,
+                    3 => OracleSetup::PythPushOracle,
+                    _ => OracleSetup::SolendPythPull,
+                };
+                let bank_config = marginfi::state::solend::SolendConfigCompact {
+                    oracle,
+                    asset_weight_init: fxd(&cfg, "aw_init", I80F48::from_num(0.8)),
+                    asset_weight_maint: fxd(&cfg, "aw_maint", I80F48::from_num(0.9)),
+                    deposit_limit: u64o(&cfg, "deposit_limit").unwrap_or(u64::MAX),
+                    oracle_setup: setup,
+                    operational_state: op_state(u64o(&cfg, "op_state").unwrap_or(1)),
+                    risk_tier: risk_tier(u64o(&cfg, "risk_tier").unwrap_or(0)),
+                    config_flags: 1,
+                    total_asset_value_init_limit: u64o(&cfg, "init_limit").unwrap_or(0),
+                    oracle_max_age: u64o(&cfg, "oracle_max_age").unwrap_or(100) as u16,
+                    oracle_max_confidence: u64o(&cfg, "oracle_max_conf").unwrap_or(0) as u32,
+                };
+                let mut m = ac::LendingPoolAddBankSolend {
+                    group: gk,
+                    admin,
+                    fee_payer: payer,
+                    bank_mint: mint.key,
+                    bank: bk,
+                    integration_acc_1: reserve_key,
+                    integration_acc_2: obligation,
+                    liquidity_vault_authority: lva,
+                    liquidity_vault: pda(tc::LIQUIDITY_VAULT_SEED, &bk),
+                    insurance_vault_authority: pda(tc::INSURANCE_VAULT_AUTHORITY_SEED, &bk),
+                    insurance_vault: pda(tc::INSURANCE_VAULT_SEED, &bk),
+                    fee_vault_authority: pda(tc::FEE_VAULT_AUTHORITY_SEED, &bk),
+                    fee_vault: pda(tc::FEE_VAULT_SEED, &bk),
+                    token_program: mint.program,
+                    system_program: system_program::ID,
+                }
+                .to_account_metas(None);
+                m.push(AccountMeta::new_readonly(oracle, false));
+                m.push(AccountMeta::new_readonly(reserve_key, false));
+                (m, ix::LendingPoolAddBankSolend { bank_config, bank_seed: sd }.data())
+            }
+            "solend_init_obligation" | "solend_deposit" | "solend_withdraw" => {
+                let bank = sreq(a, "bank")?;
+                let b = self.bank(bank)?;
+                let bk = self.k(bank);
+                let rname = self.env.names.name(&b.integration_acc_1);
+                let ri = self.env.sreserves.get(&rname).ok_or("bank has no known solend reserve")?.clone();
+                let mint = self.env.mint_by_key(&b.mint).cloned().ok_or("no mint")?;
+                let mint_name = self.env.names.name(&mint.key);
+                let lva = pda(tc::LIQUIDITY_VAULT_AUTHORITY_SEED, &bk);
+                let cmint = self.k(&format!("{}.cmint", rname));
+                let csupply = self.k(&format!("{}.csupply", rname));
+                let ucol = self.k(&format!("{}.ucol", rname));
+                let solend = marginfi::constants::SOLEND_PROGRAM_ID;
+                let reserve = s(a, "reserve_acct").map(|n| self.k(n)).unwrap_or(b.integration_acc_1);
+                let obligation = s(a, "obligation").map(|n| self.k(n)).unwrap_or(b.integration_acc_2);
+                let supply_vault = s(a, "supply_vault").map(|n| self.k(n)).unwrap_or(ri.supply_vault);
+                let market = s(a, "market_acct").map(|n| self.k(n)).unwrap_or(ri.market);
+                let amount = u64f(a, "amount")?;
+                let none = self.k("none");
+                if op == "solend_init_obligation" {
+                    let payer_name = s(a, "signer").unwrap_or("payer").to_string();
+                    let payer = self.env.wallet(&payer_name);
+                    signers.push(payer);
+                    let src = self.user_tok(&payer_name, &mint_name);
+                    (
+                        ac::SolendInitObligation {
+                            fee_payer: payer,
+                            bank: bk,
+                            signer_token_account: src,
+                            liquidity_vault_authority: lva,
+                            liquidity_vault: b.liquidity_vault,
+                            integration_acc_2: obligation,
+                            lending_market: market,
+                            lending_market_authority: ri.lma,
+                            integration_acc_1: reserve,
+                            mint: mint.key,
+                            reserve_liquidity_supply: supply_vault,
+                            reserve_collateral_mint: cmint,
+                            reserve_collateral_supply: csupply,
+                            user_collateral: ucol,
+                            pyth_price: none,
+                            switchboard_feed: none,
+                            solend_program: solend,
+                            token_program: mint.program,
+                            rent: solana_program::sysvar::rent::ID,
+                            system_program: system_program::ID,
+                        }
+                        .to_account_metas(None),
+                        ix::SolendInitObligation { amount }.data(),
+                    )
+                } else {
+                    let acct = sreq(a, "acct")?;
+                    let auth = self.authority_of(acct, a)?;
+                    let auth_name = self.env.names.name(&auth);
+                    signers.push(auth);
+                    let tok = match s(a, if op == "solend_deposit" { "src" } else { "dst" }) {
+                        Some(n) => self.k(n),
+                        None => self.user_tok(&auth_name, &mint_name),
+                    };
+                    if op == "solend_deposit" {
+                        let m = ac::SolendDeposit {
+                            group: b.group,
+                            marginfi_account: self.k(acct),
+                            authority: auth,
+                            bank: bk,
+                            signer_token_account: tok,
+                            liquidity_vault_authority: lva,
+                            liquidity_vault: b.liquidity_vault,
+                            integration_acc_2: obligation,
+                            lending_market: market,
+                            lending_market_authority: ri.lma,
+                            integration_acc_1: reserve,
+                            mint: mint.key,
+                            reserve_liquidity_supply: supply_vault,
+                            reserve_collateral_mint: cmint,
+                            reserve_collateral_supply: csupply,
+                            user_collateral: ucol,
+                            pyth_price: none,
+                            switchboard_feed: none,
+                            solend_program: solend,
+                            token_program: mint.program,
+                        }
+                        .to_account_metas(None);
+                        ctx.add.entry(acct.into()).or_default().insert(bk);
+                        (m, ix::SolendDeposit { amount }.data())
+                    } else {
+                        let all = boolo(a, "all");
+                        let mut m = ac::SolendWithdraw {
+                            group: b.group,
+                            marginfi_account: self.k(acct),
+                            authority: auth,
+                            bank: bk,
+                            destination_token_account: tok,
+                            liquidity_vault_authority: lva,
+                            liquidity_vault: b.liquidity_vault,
+                            integration_acc_2: obligation,
+                            lending_market: market,
+                            lending_market_authority: ri.lma,
+                            integration_acc_1: reserve,
+                            mint: mint.key,
+                            reserve_liquidity_supply: supply_vault,
+                            reserve_collateral_mint: cmint,
+                            reserve_collateral_supply: csupply,
+                            user_collateral: ucol,
+                            solend_program: solend,
+                            token_program: mint.program,
+                        }
+                        .to_account_metas(None);
+                        let rm: Vec<Pubkey> = if all == Some(true) { vec![bk] } else { vec![] };
+                        m.extend(self.risk_metas(acct, &[], &rm, ctx, a)?);
+                        if all == Some(true) {
+                            ctx.rm.entry(acct.into()).or_default().insert(bk);
+                        }
+                        (m, ix::SolendWithdraw { amount, withdraw_all: all }.data())
+                    }
+                }
+            }
             // ------------------------------------------------------------------ Drift (stand-in venue, see venue.rs)
             "add_bank_drift" => {
                 let group = sreq(a, "group")?;
@@ -1474,6 +1664,14 @@ impl Exec {
                 let state = self.k("drift.state");
                 let m = vec![AccountMeta::new_readonly(state, false), AccountMeta::new(mi.market, false), AccountMeta::new_readonly(system_program::ID, false), AccountMeta::new_readonly(mi.vault, false)];
                 return Ok((Instruction { program_id: marginfi::constants::DRIFT_PROGRAM_ID, accounts: m, data }, vec![]));
+            }
+            "solend_refresh" => {
+                // the venue's own refresh_reserve (tag 3) as a top-level instruction
+                let rname = sreq(a, "reserve")?.to_string();
+                let ri = self.env.sreserves.get(&rname).ok_or("no reserve")?.clone();
+                let none = self.k("none");
+                let m = vec![AccountMeta::new(ri.reserve, false), AccountMeta::new_readonly(none, false), AccountMeta::new_readonly(none, false)];
+                return Ok((Instruction { program_id: marginfi::constants::SOLEND_PROGRAM_ID, accounts: m, data: vec![3u8] }, vec![]));
             }
             "kamino_refresh" => {
                 // the venue's own refresh_reserve as a top-level instruction (users bundle it before marginfi instructions)
@@ -1984,6 +2182,43 @@ impl Exec {
                         self.env.mint_to(&mi.mint_name, mi.vault, x);
                     }
                 }
+            }
+            "add_solend_reserve" => {
+                let name = s(a, "reserve").unwrap_or("SR1").to_string();
+                let mint = s(a, "mint").unwrap_or("M1").to_string();
+                let market = s(a, "market").unwrap_or("SM1").to_string();
+                let bw = a.get("borrowed_wads").and_then(parse_i128).unwrap_or(0) as u128;
+                self.env.add_solend_reserve(&name, &mint, &market, u64o(a, "avail").unwrap_or(0), u64o(a, "supply").unwrap_or(0), bw);
+            }
+            "set_solend_reserve" => {
+                // environment move: venue interest (borrowed grows), fees, staleness
+                let name = s(a, "reserve").unwrap_or("SR1").to_string();
+                let bw = a.get("borrowed_wads").and_then(parse_i128);
+                let fw = a.get("fees_wads").and_then(parse_i128);
+                let slot = u64o(a, "slot");
+                let (avail, supply) = (u64o(a, "avail"), u64o(a, "supply"));
+                let refresh = boolo(a, "refresh") == Some(true);
+                let now_slot = self.env.world.clock.slot;
+                self.env.set_solend_reserve(&name, &|r| {
+                    if let Some(x) = bw {
+                        r.liquidity_borrowed_amount_wads = (x as u128).to_le_bytes();
+                    }
+                    if let Some(x) = fw {
+                        r.liquidity_accumulated_protocol_fees_wads = (x as u128).to_le_bytes();
+                    }
+                    if let Some(x) = slot {
+                        r.last_update_slot = x;
+                    }
+                    if let Some(x) = avail {
+                        r.liquidity_available_amount = x;
+                    }
+                    if let Some(x) = supply {
+                        r.collateral_mint_total_supply = x;
+                    }
+                    if refresh {
+                        r.last_update_slot = now_slot;
+                    }
+                });
             }
             "add_kamino_reserve" => {
                 let name = s(a, "reserve").unwrap_or("KR1").to_string();
